@@ -59,7 +59,7 @@ CHECKS = {
         engine="mc-common",
         technique="bounded exhaustive input enumeration on the real registration code: all A/B component splices, radius-1/2 deviation balls around honest registrations, the full signing-evolution x announced-evolution rectangle, judged by a reference written with ed25519-dalek / kes-summed-ed25519 / blake2 / blst only",
         text="Every registration of an explicitly generated finite space is executed on the real mithril-common / mithril-stm registration code (ProtocolKeyRegistration::register, the call sequence of the aggregator's MithrilSignerRegistrationVerifier, SignerBuilder::new) and judged by an independent reference: accepted => opcert signed by the cold key, KES signature over the key under the certified KES key within +-1 of the announced evolution and inside [0,64), valid proof of possession, pool id = blake2b-224(cold key) in the stake distribution, key not yet registered, party id derived from the cold key, recorded stake = the distribution's value; plus completeness on honest and signer-produced registrations. The space holds all splices of 10 components of two pools, all single and pairwise deviations from 10 honest bases for an outsider and for a re-signing pool operator, all 64x79 evolution pairs, 11 stake distributions and registration sequences up to length 3.",
-        note="Trusted base: ed25519-dalek non-strict verify, kes-summed-ed25519 at evolutions 0..=63, blake2, blst pairings, own bech32 encoder. The aggregator crate is not linked in this check: its verifier call sequence is mirrored (stated in the evidence); observations about the aggregator route (unverified evolutions stored, duplicate key across pools not refused at acceptance, homomorphic PoP) are reported in the evidence as observations.",
+        note="Trusted base: ed25519-dalek non-strict verify, kes-summed-ed25519 at evolutions 0..=63, blake2, blst pairings, own bech32 encoder. Part 1 (mc-common) does not link the aggregator crate: its verifier call sequence is mirrored (stated in the evidence). Part 2 (mc-aggregator, merged into the same evidence file) sends all sequences of <= 2 (thorough: 3) registrations over 19 kinds (honest, another pool's key under own certificate and KES signature, missing / wrong announced evolution, valid registration whose party id field names another / no / an unknown pool) to the real SignerRegisterer of a running aggregator and inspects the verification-key store after every step (key not already registered by another pool, party id from the cold key, stake from the distribution of the derived pool).",
         design="§4 C07",
     ),
     "C08": dict(
@@ -115,14 +115,14 @@ CHECKS = {
         engine="mc-aggregator",
         technique="explicit-state exploration by replay of the real aggregator (depth-bounded BFS with canonical-state dedup from 3 prepared states, deviation balls around nominal schedules, one-preemption operation interleavings at cfg-guarded hook points)",
         text="The real aggregator (DependenciesBuilder container, AggregatorRuntime state machine, certifier, signer registerer, warp /register-signatures route, file-backed SQLite) is driven by an event alphabet (tick, epoch +1/+2, new immutable, registrations, honest/late/early-buffered/wrong-message/wrong-label signatures, expiry, restart). All histories up to a depth from three prepared states, all histories within 1 (thorough: also 2 on a core schedule) edit of nominal multi-epoch schedules, and every (hook-point occurrence x other operation) interleaving are replayed on a fresh node; after every event the database is checked: every stored certificate verifies to genesis under mithril-common's client verifier, was sealed on a quorum of valid signatures of the signers the reference offset rule registers for that epoch, carries that epoch's aggregate key and parameters, links to the first certificate of its epoch / of the preceding epoch, no entity is certified twice, and no certificate is sealed for an open message that had already expired when the sealing cycle began. Every history is followed by closing rounds (signers resubmit, the machine keeps cycling) with the invariants evaluated after every event. A second world signs the Mithril and Cardano stake distributions (the entity whose beacon epoch differs from the epoch it is signed in) and is explored in the 1-deviation ball of its nominal schedule.",
-        note="Cardano node, digester, uploader are the repository's test doubles; keys from deterministic fixtures; 3 signers; MithrilStakeDistribution + CardanoDatabase entity types (second world: MithrilStakeDistribution + CardanoStakeDistribution); interleavings only at declared hook points, whole operations, one preemption; follower mode not explored. STM signature validity itself is C01's subject.",
+        note="Cardano node, digester, uploader are the repository's test doubles; keys from deterministic fixtures; 3 signers whose stakes differ in every epoch (shares constant); MithrilStakeDistribution + CardanoDatabase entity types (second world: MithrilStakeDistribution + CardanoStakeDistribution; third: default configuration with the operator restarting the node with other protocol parameters, checked against a write-once reference model of the epoch settings); interleavings only at declared hook points, whole operations, one preemption; follower mode not explored. STM signature validity itself is C01's subject.",
         design="§4 C14, §5",
     ),
     "C15": dict(
         level="fault_enumeration",
         engine="mc-aggregator",
         technique="exhaustive crash-cut enumeration on the real aggregator: every occurrence of every persistence hook point along a schedule armed once (thorough: 1-deviation schedules and repeated crashes), node dropped and rebuilt on the same SQLite files",
-        text="A recording run lists every occurrence of the eight persistence points (single-signature insert, certificate insert, open-message update, end of create_certificate, artifact compute/store/after-store, buffered hand-over). Each is armed once as a crash: the operation parks there, the whole node is dropped and rebuilt on the same database, then two closing environments run, each on its own copy of the cut: signers that resubmit every cycle, and honest signers that send each signature until it was acknowledged once (acting on the epoch the node serves); a new immutable and a new epoch follow. Every cut is run in two worlds: MithrilStakeDistribution + CardanoDatabase, and the default configuration (MithrilStakeDistribution only, where a lost round is an epoch gap). After every step: every certificate verifies with its chain, at most one artifact per entity, every artifact references a stored certificate of exactly that entity; at the end the later rounds must be certified with artifacts. Thorough adds the 1-deviation ball of the schedule and second crashes after every first one.",
+        text="A recording run lists every occurrence of the eight persistence points (single-signature insert, certificate insert, open-message update, end of create_certificate, artifact compute/store/after-store, buffered hand-over). Each is armed once as a crash: the operation parks there, the whole node is dropped and rebuilt on the same database, then two closing environments run, each on its own copy of the cut: signers that resubmit every cycle, and honest signers that send each signature until it was acknowledged once (acting on the epoch the node serves); a new immutable and a new epoch follow. Every cut is run in two worlds: MithrilStakeDistribution + CardanoDatabase, and the default configuration (MithrilStakeDistribution only, where a lost round is an epoch gap). After every step: every certificate verifies with its chain, at most one artifact per entity, every artifact references a stored certificate of exactly that entity; before the closing environment's epoch change the round of the later immutable beacon of the crash epoch, and at the end the rounds of the next epoch, must be certified with artifacts. Thorough adds the 1-deviation ball of the schedule and second crashes after every first one.",
         note="A crash is the loss of everything after an await point between persistence statements; torn pages / power loss are not modelled. An entity certified twice after a crash between certificate insert and open-message update is reported as an observation (C15 does not forbid it).",
         design="§4 C15, §5",
     ),
